@@ -124,6 +124,13 @@ class _PE(ast.NodeTransformer):
             return ast.copy_location(ast.Constant(value=bool(d)), node)
         return node
 
+    def visit_FormattedValue(self, node):
+        # f'{V}' under V == 'lit' is the literal (V is a schema kind: a plain string)
+        self.generic_visit(node)
+        if isinstance(node.value, ast.Name) and node.value.id == self.var and node.conversion == -1 and node.format_spec is None and isinstance(self.value, str):
+            return ast.copy_location(ast.Constant(value=self.value), node)
+        return node
+
     def visit_Subscript(self, node):
         self.generic_visit(node)
         if isinstance(node.value, ast.Dict) and isinstance(node.slice, ast.Name) and node.slice.id == self.var and isinstance(node.ctx, ast.Load):
@@ -208,6 +215,14 @@ def _lookups_by(stmts, var):
     return False
 
 
+def _formats(stmts, var):
+    for s in stmts:
+        for n in ast.walk(s):
+            if isinstance(n, ast.FormattedValue) and isinstance(n.value, ast.Name) and n.value.id == var and n.conversion == -1 and n.format_spec is None:
+                return True
+    return False
+
+
 class _Splitter(ast.NodeTransformer):
     def visit_If(self, node):
         self.generic_visit(node)
@@ -215,7 +230,7 @@ class _Splitter(ast.NodeTransformer):
         t = node.test
         if isinstance(t, ast.Compare) and len(t.ops) == 1 and isinstance(t.ops[0], ast.Eq) and isinstance(t.left, ast.Name) and isinstance(t.comparators[0], ast.Constant) and isinstance(t.comparators[0].value, str):
             var, lit = t.left.id, t.comparators[0].value
-            if not _rebinds(node.body, var) and (_lookups_by(node.body, var) or _decides_on(node.body, var)):
+            if not _rebinds(node.body, var) and (_lookups_by(node.body, var) or _decides_on(node.body, var) or _formats(node.body, var)):
                 node.body = specialise(node.body, var, lit) or [ast.copy_location(ast.Pass(), node)]
                 ast.fix_missing_locations(node)
         return split_if(node)
